@@ -147,7 +147,7 @@ CmpNamesT == [p \in PIDs |-> IF "cmp" \in DOMAIN Recs[p] THEN SeqSet(Recs[p].cmp
 \* a clause that fails on a record matching an open known finding (KnownFindings.tla) is reported as KNOWN, not FAIL
 Fail(p, clause, info) ==
   IF ~Active(clause) THEN TRUE
-  ELSE LET kf == KnownFinding(Stmts(p), clause) IN
+  ELSE LET kf == KnownFindingR(Recs[p], clause) IN
        IF kf # "" THEN PrintT(<<"KNOWN", Recs[p].id, clause, kf>>)
        ELSE IF Strict THEN FALSE ELSE PrintT(<<"FAIL", Recs[p].id, clause, info>>)
 Reserved == Wild \cup {"signal-W"}
